@@ -23,8 +23,8 @@ ASSUMPTIONS = [
     "value restoration is judged by the C01 oracle (strict, or fixpoint at ambiguous unions), so the same two union findings apply",
 ]
 PLAN = {"quick": dict(programs=2000, values=5, depth=3), "thorough": dict(programs=40000, values=10, depth=5)}
-FLOORS = {"quick": {"json_validity_checked": 25000, "entrypoint_agreements": 25000, "coder_call_checks": 15000, "bytes_types_checked": 300},
-          "thorough": {"json_validity_checked": 900000, "entrypoint_agreements": 900000, "coder_call_checks": 500000, "bytes_types_checked": 10000}}
+FLOORS = {"quick": {"json_validity_checked": 25000, "entrypoint_agreements": 25000, "coder_call_checks": 15000, "bytes_types_checked": 300, "types_given_by_reference": 3000},
+          "thorough": {"json_validity_checked": 900000, "entrypoint_agreements": 900000, "coder_call_checks": 500000, "bytes_types_checked": 10000, "types_given_by_reference": 100000}}
 
 
 class Coder:
@@ -79,6 +79,15 @@ def canaries(sh):
 
 def one_value(sh, spec, v, prog, rng, coders):
     T, tsrc = spec.t, spec.src
+    # the entry points also accept the type by reference: a ForwardRef carrying the module, or the qualified name
+    Tcodec = T
+    if rng.random() < 0.25 and not isinstance(T, str):
+        import typing
+
+        name = f"_c02_{abs(hash(tsrc)) % 10**9}"
+        setattr(prog.module, name, T)
+        Tcodec = typing.ForwardRef(name, module=prog.name) if rng.random() < 0.5 else f"{prog.name}.{name}"
+        sh.count("types_given_by_reference")
     try:
         with quiet():
             m = typelib.marshal(v, t=T)
@@ -97,22 +106,22 @@ def one_value(sh, spec, v, prog, rng, coders):
         try:
             with quiet():
                 if cfg == "default":
-                    cdc = typelib.codec(T)
+                    cdc = typelib.codec(Tcodec)
                     b1 = cdc.encode(v)
-                    b2 = typelib.encode(v, t=T)
+                    b2 = typelib.encode(v, t=Tcodec)
                     b3 = typelib.compat.json.dumps(m)
                     u1 = cdc.decode(b1)
-                    u2 = typelib.decode(T, b1)
+                    u2 = typelib.decode(Tcodec, b1)
                 else:
                     co = coders[cfg]
                     co.reset()
-                    cdc = typelib.codec(T, encoder=co.encode, decoder=co.decode)
+                    cdc = typelib.codec(Tcodec, encoder=co.encode, decoder=co.decode)
                     b1 = cdc.encode(v)
                     n_enc = list(co.enc_calls)
                     u1 = cdc.decode(b1)
                     n_dec = list(co.dec_calls)
-                    b2 = typelib.encode(v, t=T, encoder=co.encode)
-                    u2 = typelib.decode(T, b1, decoder=co.decode)
+                    b2 = typelib.encode(v, t=Tcodec, encoder=co.encode)
+                    u2 = typelib.decode(Tcodec, b1, decoder=co.decode)
                     b3 = co.encode(m)
                     sh.count("coder_call_checks")
                     if len(n_enc) != 1 or canon(n_enc[0], strict=True) != canon(m, strict=True):
